@@ -264,6 +264,7 @@ static void* root(void* x) {
       const long q = 20 + (long)(vp_rand(&rng) % 150);
       ms_target = q * W;
       fiber_multi_signal_init(&ms);
+      if (vp_rand(&rng) & 1) ms.data.counter = (uintptr_t)0x100000000ULL - 40;  // version counter crosses 2^32
       fiber_signal_init(&ms_ack);
       atomic_store(&ms_raises_begun, 0);
       atomic_store(&ms_raise_ret1, 0);
@@ -296,7 +297,14 @@ static void* root(void* x) {
       atomic_store(&recv_invoked, 0);
       atomic_store(&recv_total, 0);
       fiber_signal_init(&sig);
-      if (kind == 0) bch = fiber_bounded_channel_create((uint32_t)cap_log, use_signal ? &sig : NULL);
+      if (kind == 0) {
+        bch = fiber_bounded_channel_create((uint32_t)cap_log, use_signal ? &sig : NULL);
+        if (vp_rand(&rng) & 1) {
+          const uint64_t start = 0x100000000ULL - ((uint64_t)(8 + vp_rand(&rng) % 16) << cap_log);
+          bch->high = start;
+          bch->low = start;
+        }
+      }
       else if (kind == 1) fiber_unbounded_channel_init(&uch, use_signal ? &sig : NULL);
       else if (kind == 2) fiber_unbounded_sp_channel_init(&spch, use_signal ? &sig : NULL);
       else mch = fiber_multi_channel_create((uint32_t)cap_log);
